@@ -1,16 +1,16 @@
 #!/bin/bash
 # seed_matrix.sh [regex]: run every kept seeded change (whose directory name matches the regex) against the check of the property it targets,
 # record the outcome in its meta.json (caught_by) and print one line per change.
-cd /verif
+V=${VERIF_ROOT:-/verif}; cd $V
 for d in $(ls seeded | sort | grep -E -e "${1:-.}"); do
   line=$(tools/run_seeded.sh $d 2>&1 | tail -1)
   rc=$(echo "$line" | sed -n 's/.* rc=\([0-9]*\) .*/\1/p')
   nf=$(echo "$line" | grep -c "no-failing-input-found")
   prop=$(python3 -c "import json;print(json.load(open('seeded/$d/meta.json'))['property'])")
-  python3 - "$d" "$rc" "$nf" "$prop" <<'PY'
+  python3 - "$d" "$rc" "$nf" "$prop" "$V" <<'PY'
 import json,sys
-d,rc,nf,prop=sys.argv[1:]
-p=f'/verif/seeded/{d}/meta.json'
+d,rc,nf,prop,v=sys.argv[1:]
+p=f'{v}/seeded/{d}/meta.json'
 m=json.load(open(p))
 m['caught_by']=(f"./check {prop} --tier quick: VIOLATION" + (" (no-failing-input-found: broken theorem/correspondence)" if nf=='1' else " with a failing input as replay")) if rc=='1' else None
 m['ran']=[f"tools/run_seeded.sh {d}  (git -C /repo apply patch.diff; ./check {prop}; git -C /repo checkout -- .)"]
